@@ -13,7 +13,7 @@ NFACES = ["h", "v", "all"]
 REFP = ["normalsH", "normalsV", "normalsF", "outH", "outV", "outF"]   # same order as G.REFPROPS
 PLAIN = ["cell", "nlayers", "ncell2dNoHalos", "ncell2d", "cellMap", "ncpcX", "ncpcY", "ncellF",
          "stencilSize", "stencilSize2d", "maxBranch", "direction", "stencilMap", "stencilMap2d",
-         "opNcell3d", "ndf", "undf", "dofmap", "dofmapWhole", "bandedMap", "indirectionMap",
+         "opNcell3d", "opProxy", "ndf", "undf", "dofmap", "dofmapWhole", "bandedMap", "indirectionMap",
          "basisQuad", "basisEval", "diffBasisQuad", "diffBasisEval", "boundaryDofs", "adjacentFace",
          "npXy", "npZ", "weightsXy", "weightsZ", "nfacesQr", "nedgesQr", "npXyz", "weightsXyz"]
 
@@ -152,6 +152,8 @@ def classify_call(text, md):
     if pre == "op" and a["k"] == "op":
         if rest == "_proxy%ncell_3d":
             return "opNcell3d"
+        if rest == "_proxy":
+            return "opProxy"
         if rest == "_local_stencil":
             return f"opData.{a['acc']}"
     if pre == "cma" and a["k"] == "cma":
